@@ -268,7 +268,7 @@ def _scenario_child(scn, forced=None, est_steps=20000):
         shared_bn = {"%s:%d" % (_os.path.basename(f), ln) for f, lines in s.shared.items() for ln in lines}
         sw_shared = sum(1 for sw in s.switches if sw[3] in shared_bn or str(sw[3]).startswith("lock:"))
         return {"results": results, "failure": failure, "hazards": list(shim.HAZARDS)[:5], "open_conns": open_conns,
-                "schedule": s.schedule(), "switch_where": [w for (_s, _f, _t, w, _o) in s.switches][:200], "steps": s.steps,
+                "schedule": s.schedule(), "switch_where": [w for (_s, _f, _t, w, _o) in s.switches][:200], "steps": s.steps, "aligned_points": s.aligned_points,
                 "thread_steps": {n: t["steps"] for n, t in s.threads.items()},
                 "thread_lines": {n: t["lines"] for n, t in s.threads.items()},
                 "hot_lines": {n: list(t["hot_lines"]) for n, t in s.threads.items()},
@@ -428,6 +428,46 @@ def task_sweep(task):
     return out
 
 
+def lockstep_scenarios():
+    """The finite space of the lockstep phase: every fixed call against itself and against each other member of its
+    contender family, x period in (1, 2, 3); calls of run() also with file-backed sessions."""
+    fc = fixed_calls()
+    same = [(n, op, n, op) for n, op in fc]
+    cross = [(na, a, nb, b) for (_f, na, a, nb, b) in sweep_pairs()]
+    out = []
+    for (na, a, nb, b) in same + cross:
+        envs = [None, {"VTL_USE_IN_MEMORY_DB": "0"}] if a["api"] == "run" and b["api"] == "run" else [None]
+        for env in envs:
+            for period in (1, 2, 3):
+                scn = {"threads": [[{"name": na, "op": a}], [{"name": nb, "op": b}]],
+                       "strategy": {"kind": "lockstep", "period": period}, "sched_seed": period}
+                if env:
+                    scn["env"] = env
+                out.append(scn)
+    return out
+
+
+def task_lockstep(task):
+    out = {"runs": 0, "steps": 0, "switches": 0, "file_backed": 0, "aligned": 0, "viols": []}
+    _alone_cache.update(task.get("alone") or {})
+    for scn in task["scenarios"]:
+        _preparse(scn)
+        child = proc.in_child(_scenario_child, scn, timeout=300)
+        out["runs"] += 1
+        out["steps"] += child["steps"]
+        out["switches"] += len(child["schedule"])
+        out["file_backed"] += int(bool(scn.get("env")))
+        out["aligned"] += child.get("aligned_points", 0)
+        for (inv, obs, sig) in judge(scn, child):
+            st = scn["strategy"]
+            out["viols"].append({"invariant": inv, "observed": obs + " [lockstep period %d]" % st["period"],
+                                 "signature": dict(sig, invariant=inv, lockstep=True), "scenario": scn,
+                                 "schedule": child["schedule"] if len(child["schedule"]) < 20000 else None,
+                                 "digest": child["seam_digest"], "steps": child["steps"]})
+            break
+    return out
+
+
 def task_minimise(task):
     """Re-search minimisation: fewer threads / calls, then the schedule with the fewest switches
     (PCT depth 1 first) that still violates the same invariant."""
@@ -523,8 +563,24 @@ def run(ctx):
         keys = {_op_key(pr[2]), _op_key(pr[4])}
         sweep_tasks.append({"pair": pr, "seed": ctx.seed, "max_points": 100 if quick else 400, "wall_s": 45.0 if quick else 150.0, "alone": {k: alone_map[k] for k in keys if k in alone_map}})
     sweep_done = ctx.map("task_sweep", sweep_tasks, budget_s=ctx.budget_s * (0.5 if quick else 0.8), force=True, min_tasks=12)
+    # phase 4: lockstep (both threads inside every short window at the same time)
+    ls_all = lockstep_scenarios()
+    rng.shuffle(ls_all)
+    ls_all.sort(key=lambda s: (s["strategy"]["period"] != 1, not s.get("env")))   # symmetric period-1 runs first, file-backed first among them
+    ls_sel = ls_all[:64] if quick else ls_all
+    ls_tasks = []
+    for i in range(0, len(ls_sel), 2):
+        part = ls_sel[i:i + 2]
+        keys = {_op_key(c["op"]) for scn in part for cl in scn["threads"] for c in cl}
+        ls_tasks.append({"scenarios": part, "alone": {k: alone_map[k] for k in keys if k in alone_map}})
+    ls_done = ctx.map("task_lockstep", ls_tasks, budget_s=ctx.budget_s * (0.35 if quick else 0.6), force=True, min_tasks=16)
     violations, inter, samples = [], set(), []
+    ls_runs = ls_steps = ls_sw = ls_fb = ls_al = 0
+    for _t, r in ls_done:
+        ls_runs += r["runs"]; ls_steps += r["steps"]; ls_sw += r["switches"]; ls_fb += r["file_backed"]; ls_al += r["aligned"]
+        violations += r["viols"]
     n_eval = steps = switches = contended = shared = open_after = 0
+    n_eval += ls_runs
     sweep_points = sweep_hot = sweep_complete = 0
     sweep_table = []
     for _t, r in sweep_done:
@@ -577,6 +633,9 @@ def run(ctx):
         "shared_state_line_events": shared, "connections_still_open_after_scenarios_informational": open_after, "scenarios_by_strategy": by_strategy, "scenarios_by_call_kind": kinds,
         "tasks_skipped_by_budget": getattr(ctx, "last_skipped", 0),
         "fault_kinds_fired": {"thread_preemption": switches, "lock_contention": contended},
+        "lockstep": {"space": len(ls_all), "runs": ls_runs, "file_backed_runs": ls_fb, "simulated_steps": ls_steps, "thread_switches": ls_sw, "aligned_line_events": ls_al,
+                     "rule": "two threads on (nearly) the same code path are kept aligned: whenever one arrives at the line where the other is parked they advance alternately, period lines at a time (both inside every window of period+1 statements); "
+                             "after a divergence each hunts for the other's position with a doubling budget: space = (every fixed call x itself + ordered contender pairs) x period (1,2,3) x {in-memory, file-backed for run()}"},
         "atomicity_sweep": {"ordered_pairs_available": len(pairs), "pairs_swept": len(sweep_done), "insertion_points_run": sweep_points,
                             "of_which_hot": sweep_hot, "pairs_with_every_hot_point_run": sweep_complete,
                             "rule": "for an ordered pair (A, B) of calls contending for the same process state: B as a whole is inserted into A at a line event of A (one pre-emption per run); "
